@@ -485,7 +485,10 @@ int main(int argc, char **argv) {
     json replays = json::array(), notes = json::array(), samples = json::array();
     std::string line;
     json c;
+    const size_t stopAfter = plan.value("stop_after_failures", 12);
     while (std::getline(std::cin, line)) {
+        if (failures >= stopAfter)
+            continue; // enough evidence: drain the input without running further cases
         if (!parseLine(line, c) || !c.contains("k"))
             continue;
         ++cases;
